@@ -491,8 +491,46 @@ def rule_price_freshness(ctx: Ctx) -> None:
                     "collateral at a stale price instead of the last price", key_text=f"stale {attr}")
 
 
+def rule_no_swallowed_price(ctx: Ctx) -> None:
+    """C10.7 (second half): what cannot be valued refuses the request.  In every function the margin level computation reaches inside
+    basana.backtesting, no handler catches NoPrice (or a base of it) without re-raising: a position without a price would silently be
+    valued at zero and the loan granted."""
+    from .. import summaries as S
+    sm = S.get(ctx)
+    roots = [f"{MARGIN}.MarginLoans._calculate_margin_level", f"{MARGIN}.MarginLoans._check_margin_level", f"{MARGIN}.CheckMarginLevel.check"]
+    reach = sorted(q for q in A.reachable(ctx, roots) if q.startswith("basana.backtesting."))
+    ctx.floor("C10.7", "functions on the valuation path", len(reach), 8)
+    n_h = 0
+    for q in reach:
+        fn = ctx.repo.funcs[q]
+        ctx.analysed_funcs.add(q)
+        for t in [n for n in C.walk_shallow(fn.node) if isinstance(n, ast.Try)]:
+            for h in t.handlers:
+                names = sm.handler_names(h)
+                if not any(sm.is_sub("NoPrice", hn) for hn in names):
+                    continue
+                n_h += 1
+                reraises = bool(h.body) and all(_always_raises(h.body))
+                ctx.check(reraises, "C10.7", "a missing price is never swallowed on the valuation path", fn, h,
+                          f"handler {names} re-raises", f"{fn.name} catches {names} and carries on: a borrowed or held symbol that has no price is "
+                          "valued at zero (or skipped), so used margin / interest are understated and a loan that does not meet the requirement is granted",
+                          key_text=f"swallow {q} {','.join(names)}")
+    ctx.ok("C10.7", f"{len(reach)} functions reachable from the margin level computation inspected: {n_h} handler(s) for NoPrice", None, None,
+           "none swallows", key_text="valuation handlers scanned")
+
+
+def _always_raises(body) -> List[bool]:
+    last = body[-1]
+    if isinstance(last, ast.Raise):
+        return [True]
+    if isinstance(last, ast.If) and last.orelse:
+        return _always_raises(last.body) + _always_raises(last.orelse)
+    return [False]
+
+
 def run(ctx: Ctx) -> None:
     rule_price_freshness(ctx)
+    rule_no_swallowed_price(ctx)
     rule_noloans(ctx)
     rule_installed(ctx)
     rule_sentinel(ctx)
